@@ -1,12 +1,13 @@
 // C44 — system and user variables store and scope values correctly.
 //
 // Part A (every registered system variable × candidate values derived from its declared type × SESSION/GLOBAL):
-//   * `SET <scope> v = <value>` succeeds exactly when the scope rules allow it, the variable is dynamic and the
+//   - `SET <scope> v = <value>` succeeds exactly when the scope rules allow it, the variable is dynamic and the
 //     variable type's Convert accepts the value (the Go value of the literal is obtained with `SELECT <literal>`);
-//   * on success `SELECT @@<scope>.v` returns Convert's value, which for numbers and strings must also be the value
+//   - on success `SELECT @@<scope>.v` returns Convert's value, which for numbers and strings must also be the value
 //     that was assigned (no silent change), and the other scope's value is untouched; a new session starts from the
 //     new global value;
-//   * on failure both the session and the global value are unchanged.
+//   - on failure both the session and the global value are unchanged.
+//
 // Part B (3 sessions + sessions opened later, a model of global / per-session / @user values): histories of SET
 // SESSION / SET GLOBAL / SET @@… / SET @u and reads; every read must return what the model holds.
 //
